@@ -44,6 +44,7 @@ var props = map[string]*propInfo{
 	"C12": {},
 	"C14": {},
 	"C15": {},
+	"C16": {},
 }
 
 func loadInfo(bin, id string, p *propInfo) error {
